@@ -121,8 +121,7 @@ Section Window.
   Record lj_wf (X rho : R) : Prop := {
     lw_syms : Forall sym_row (l_syms NumR st);
     lw_rigid : Forall rigid (l_syms NumR st);
-    lw_site : s_cos NumR (l_site NumR st) * s_cos NumR (l_site NumR st)
-              + s_sin NumR (l_site NumR st) * s_sin NumR (l_site NumR st) = 1;
+    lw_site : Forall (fun s => s_cos NumR s * s_cos NumR s + s_sin NumR s * s_sin NumR s = 1) (l_sites NumR st);
     lw_len : 0 < c_len NumR cl;
     lw_ratio : 0 < c_ratio NumR cl;
     lw_sin : 0 < c_sin NumR cl;
@@ -143,11 +142,13 @@ Section Window.
   Lemma rel_spec (p : tfR) : In p (lj_relative NumR st) ->
     affine_row p /\ rigid p /\ -1/2 <= a02 NumR p < 1/2 /\ -1/2 <= a12 NumR p < 1/2.
   Proof.
-    intros Hp. unfold lj_relative in Hp. rewrite positions_map in Hp. apply in_map_iff in Hp.
+    intros Hp. unfold lj_relative in Hp. apply in_flat_map in Hp. destruct Hp as (site & Hsite & Hp).
+    rewrite positions_map in Hp. apply in_map_iff in Hp.
     destruct Hp as (sym & <- & Hs).
-    pose proof (lw_syms _ _ Hwf) as Hrow. pose proof (lw_rigid _ _ Hwf) as Hrig. rewrite Forall_forall in Hrow, Hrig.
-    destruct (placement_spec sym (l_site NumR st) (Hrow sym Hs)) as (_ & _ & _ & _ & E02 & E12 & (R0 & R1 & R2')).
-    split; [repeat split; auto|]. split; [apply placement_rigid; [apply Hrow|apply Hrig|apply (lw_site _ _ Hwf)]; exact Hs|].
+    pose proof (lw_syms _ _ Hwf) as Hrow. pose proof (lw_rigid _ _ Hwf) as Hrig. pose proof (lw_site _ _ Hwf) as Hcs.
+    rewrite Forall_forall in Hrow, Hrig, Hcs.
+    destruct (placement_spec sym site (Hrow sym Hs)) as (_ & _ & _ & _ & E02 & E12 & (R0 & R1 & R2')).
+    split; [repeat split; auto|]. split; [apply placement_rigid; [now apply Hrow|now apply Hrig|now apply Hcs]|].
     rewrite E02, E12. split; apply wrap_spec.
   Qed.
 
@@ -233,7 +234,7 @@ Section Window.
 
   (* C03: the score is the lattice energy per molecule of the infinite crystal: for every window k >= 3 *)
   Theorem lj_score_is_infinite_lattice_sum (k : Z) : (3 <= k)%Z ->
-    lj_score NumR rpowi st = Some (- (incell_sum st + / 2 * image_sum_k k) / INR (length (l_syms NumR st))).
+    lj_score NumR rpowi st = Some (- (incell_sum st + / 2 * image_sum_k k) / INR (lj_copies st)).
   Proof.
     intros Hk. rewrite lj_score_formula, image_sum_is_3, (image_sum_window_independent k Hk). reflexivity.
   Qed.
@@ -241,15 +242,16 @@ End Window.
 
 (* the hypotheses are satisfiable: a cut disc (cutoff 7/2) in a p1 square cell of side 10 *)
 Definition example_lj_state : ljstateR :=
-  mkLjstate [@mkTf NumR 1 0 0 0 1 0 0 0 0] (@mkSite NumR 0 0 1 0) (@mkCell NumR 10 1 0 1)
+  mkLjstate [@mkTf NumR 1 0 0 0 1 0 0 0 0] [@mkSite NumR 0 0 1 0] (@mkCell NumR 10 1 0 1)
             [@mkLj NumR 0 0 1 1 (Some (7/2))].
 
 Example example_lj_state_wf : lj_wf example_lj_state (7/2) 0.
 Proof.
-  constructor; cbn [example_lj_state l_syms l_site l_cell l_shape s_cos s_sin c_len c_ratio c_sin c_cos];
+  constructor; cbn [example_lj_state l_syms l_sites l_cell l_shape s_cos s_sin c_len c_ratio c_sin c_cos];
     change (carrier NumR) with R; try lra.
   - repeat constructor.
   - constructor; [|constructor]. unfold rigid. cbn [a00 a01 a10 a11]. change (carrier NumR) with R. lra.
+  - constructor; [|constructor]. cbn [s_cos s_sin]. change (carrier NumR) with R. lra.
   - constructor; [|constructor]. cbn [lcut lx ly]. split; [exists (7/2); split; [reflexivity|lra]|].
     change (carrier NumR) with R. replace (0 * 0 + 0 * 0) with 0 by ring. rewrite sqrt_0. lra.
   - rewrite Rmin_left by lra. lra.
